@@ -43,7 +43,10 @@ BytesOK(e) ==
 HeaderOK(e) == /\ ~e.panicked
                /\ e.count = e.n /\ e.hdr = HeaderBytes(e.n) /\ e.b0 = HeaderByte0(e.n)
                /\ e.popOK /\ e.equal /\ e.jsonOK
-Match(e) == CASE e.op = "Header" -> HeaderOK(e) [] e.op = "Reader" -> ReaderOK(e) [] e.op = "Shape" -> ShapeOK(e) [] e.op = "Bytes" -> BytesOK(e) [] OTHER -> FALSE
+\* discovery of the profile field's JSON member name (what profile registration relies on)
+ProfileTagOK(e) == LET r == ProfileTag(e.shape) IN
+  /\ ~e.panicked /\ e.ok = r.ok /\ (r.ok => e.tag = r.tag)
+Match(e) == CASE e.op = "ProfileTag" -> ProfileTagOK(e) [] e.op = "Header" -> HeaderOK(e) [] e.op = "Reader" -> ReaderOK(e) [] e.op = "Shape" -> ShapeOK(e) [] e.op = "Bytes" -> BytesOK(e) [] OTHER -> FALSE
 TInit == l = 1 /\ bad = <<>>
 TNext == l <= Len(Trace) /\ l' = l + 1 /\ bad' = IF Match(Trace[l]) THEN bad ELSE Append(bad, l)
 TSpec == TInit /\ [][TNext]_tvars
